@@ -111,7 +111,7 @@ def run(res):
             direct.append(('mutating the returned set changed the answer of the next call: %r then %r' % (sorted(map(repr, first)), sorted(map(repr, r2))), ctx))
         # other ways of making the same call: keyword arguments, explicit defaults, text + an explicit parser object,
         # a deep copy of the structure
-        if i % 4 == 0:
+        if i % 6 == 0:
             import copy
             txt = None
             try:
@@ -129,6 +129,21 @@ def run(res):
                 except Exception as e:
                     return 'raised ' + type(e).__name__
             kw, pos = outcome(lambda: L.modelcheck(K, to_obj(t, L), F=Fl)), outcome(lambda: L.modelcheck(K, to_obj(t, L), None, Fl))
+            # F in other container types (the constraints themselves must stay set-like: the code intersects them)
+            for how, Fx in (('a tuple of frozensets', tuple(frozenset(P) for P in Fl)), ('a generator of sets', (set(P) for P in Fl)),
+                            ('a list with the same set object twice', [Fl[0], Fl[0]])):
+                alt = outcome(lambda: L.modelcheck(K, to_obj(t, L), F=Fx))
+                if alt != kw and how != 'a generator of sets':
+                    direct.append(('modelcheck(K, f, F=%s) gives %r, with a list of sets %r' % (how, alt, kw),
+                                   dict(ctx, F=[sorted(map(repr, P)) for P in Fl])))
+            # a structure that is an instance of a subclass overriding nothing
+            class MyKripke(Kripke):
+                pass
+            K3 = MyKripke(S=list(names), R=list(R), L={names[s]: set(labs[s]) for s in range(K0.n)})
+            sub = outcome(lambda: L.modelcheck(K3, to_obj(t, L)))
+            if sub != sorted(map(repr, first)):
+                direct.append(('on an instance of a Kripke subclass that overrides nothing the answer is %r instead of %r'
+                               % (sub, sorted(map(repr, first))), ctx))
             if kw != pos:
                 direct.append(('modelcheck(K, f, None, F) (documented order kripke, formula, parser, F) gives %r, modelcheck(K, f, F=F) %r'
                                % (pos, kw), dict(ctx, F=[sorted(map(repr, P)) for P in Fl])))
@@ -157,6 +172,33 @@ def run(res):
         lines.append('%s|%s|%s' % (logic, Kenc, sexpr(t)))
         impl.append(a)
         ctxs.append(ctx)
+    # import order: fresh interpreters that import the sub-packages in every order (or only `from pyModelChecking import *`)
+    import itertools
+    import json
+    import os
+    import subprocess
+    import sys
+    here = os.path.dirname(os.path.dirname(os.path.abspath(__file__)))
+    prog = ('import sys, json, importlib\n'
+            'order = sys.argv[1].split(",")\n'
+            'if order == ["star"]:\n'
+            '    ns = {}; exec("from pyModelChecking import *", ns)\n'
+            'else:\n'
+            '    for m in order: importlib.import_module("pyModelChecking." + m)\n'
+            'import pyModelChecking.CTL as CTL, pyModelChecking.LTL as LTL, pyModelChecking.CTLS as CTLS\n'
+            'from pyModelChecking.kripke import Kripke\n'
+            'K = Kripke(R=[(0,1),(1,2),(2,0),(2,2)], L={0:{"p"},2:{"q"}})\n'
+            'out = [sorted(CTL.modelcheck(K, "A G (p --> A F q)")), sorted(LTL.modelcheck(K, "A (p U X q)")),\n'
+            '       sorted(CTLS.modelcheck(K, "A F G (q or E X p)")), str(CTL.Parser()("E (p U q)")), str(LTL.A(LTL.X("p") & "q"))]\n'
+            'print(json.dumps(out))\n')
+    answers = {}
+    orders = [','.join(o) for o in itertools.permutations(['CTL', 'LTL', 'CTLS'])] + ['LTL', 'CTLS,PL', 'BDD,LTL,CTL', 'star']
+    for o in (orders if not quick else orders[:3] + orders[-3:]):
+        pr = subprocess.run([sys.executable, '-c', prog, o], stdout=subprocess.PIPE, stderr=subprocess.PIPE, text=True,
+                            env=dict(os.environ, PYTHONPATH=os.pathsep.join(x for x in sys.path if x)))
+        answers[o] = pr.stdout.strip().splitlines()[-1] if pr.returncode == 0 and pr.stdout.strip() else 'crashed: ' + pr.stderr[-200:]
+    if len(set(answers.values())) != 1 or any(v.startswith('crashed') for v in answers.values()):
+        direct.append(('the answers depend on the order in which the sub-packages are imported: %r' % answers, {'orders': answers}))
     model = [mc_common.norm(x) for x in lean_batch(lines)]
     # CTL*: the decidable hypothesis of ctls_exact_partial (naming discipline) on these adversarial labels, and where it
     # holds the answer is exact by that theorem; where it fails the answer is additionally compared with the
